@@ -127,7 +127,8 @@ def run_case(case, obs):
         elif mode == "default":
             obs.check(n == 1, "default-one-iteration", f"{tag}: executed {n} requests for a task without any loop spec")
         elif mode == "finite-source":
-            obs.check(n == case["source_size"], "finite-source-count", f"{tag}: executed {n}, source has {case['source_size']}")
+            size = case["source_size"][ci % len(case["source_size"])] if isinstance(case["source_size"], list) else case["source_size"]
+            obs.check(n == size, "finite-source-count", f"{tag}: executed {n}, source has {size}")
         elif mode == "runner-completion":
             obs.check(n == case["runner_completes_after"], "runner-completion-count", f"{tag}: executed {n}, runner completes after {case['runner_completes_after']}")
             if n:
